@@ -54,17 +54,14 @@
        paragraph, a list and a block quote.
 
   OPEN (statements not proved here; the lemma that is missing):
-    (a) list item termination: when `listContinue` stops the list because the sweep said yes at
-        `next_line`, the loop of the frame that ran the list rule stands next at `next_line` and the yes is
-        honoured.  Missing: (i) `listLoop`/`listRule` exit analysis (the state the list rule returns is the
-        sweep's state with `nodeKind`/`level` restored and the list pushed: from `listLoop_spec`,
-        `listItem_spec` of `Props/Block.lean` + `lazyScan_stop`-style stop reasons for `listContinue`);
-        (ii) `honoured_of_sweep` for states that ALSO differ in `nodeKind` and `level`: look-ahead of every
-        rule but the list rule does not read them (same proof as `runRuleH_silent_congr`); the list rule
-        reads `nodeKind` (`silent ∧ isListKind nodeKind → false`), so in the sweep (inside the list) it
-        says no and at the next iteration (outside) it may say yes EARLIER than the claimant — covered by
-        the "earlier member" alternative of `Honoured.first_yes`, but the congruence must be stated as
-        "verdict at `u` ≥ verdict at `t` for the list rule, = for the others".
+    (a) list item termination: DONE in the appended part (second session) — `list_end_is_real_start`
+        (generic), `list_end_is_real_start_shipped` (every chain over the ten rules, no side condition),
+        `custom_rule_after_list` (the 07357ef scenario for `engX`), with `Lemmas/C16BlockList.lean`
+        (`runRuleH_silent_congr2`: every rule but the list rule reads neither node kind nor level;
+        `list_in_list`; `listLoop_exit`, `listRule_ok`).  Left: for `engX` the level condition
+        `s1.level < max_nesting` is a hypothesis (needs `TokSpec` of the `engX` tokenizer, i.e. the frame
+        lemmas of `Props/Block.lean` under `TestQuiet` instead of `TestPure`); the custom rule needs the
+        extra hypothesis `hX2` (its look-ahead reads neither node kind nor level).
     (b) lazy continuation of a block quote (`bqScan`, Case 3): the sweep said yes at `next_line`, the quote
         ends there, the loop of the enclosing frame stands at `next_line` after `restoreOffs`.  Missing:
         the sweep's state and the next state differ in the LINE TABLE (rows of the quote's lines, rewritten
@@ -72,18 +69,14 @@
         they call `line_indent(line)`, `get_line(line)`, `off(line)` only) and `BqPost` of
         `Props/Block.lean` for the restored row; and `blk_indent` differs inside a list item (the quirk
         `indent_nonspace -= blk_indent`).
-    (c) lheading / reference scans: `lazyScan_stop` covers them; the lheading rule DECLINES when its scan
-        stops by the sweep (level 0) and the paragraph rule repeats the scan; the reference rule may
-        accept fewer lines than it scanned.  Missing: `lazyScan test true … = (l, 0, s) → lazyScan test
-        false … = (l, 0, s)` (same stop for the paragraph rule), and for reference: `reference_ok` — an
-        accepting `referenceRule … s false` returns `upd { s with line := s.line + lines + 1 } s.children
-        s.tight m` with `lazyScan … = (l, lvl, s)` (take `referenceRule` apart as `paragraph_ok` does);
-        then the case `start_line + lines + 1 = l` is `step_after_accept` + `honoured_of_sweep` verbatim
-        (the state differs in the reference map only — `upd` covers it).
+    (c) lheading / reference scans: DONE in the appended part — `lazyScan_false_of_true`,
+        `lheading_declines_at_sweep_stop`, `lheading_end_is_real_start`, `reference_ok`,
+        `reference_end_is_real_start`.
     (d) `Reach` does not descend into list items (the `listLoop` iteration relation); the theorems are
         stated for every state, so they hold in those frames — only the listing stops there.
 -/
 import MdIt.Lemmas.C16BlockReach
+import MdIt.Lemmas.C16BlockList
 
 namespace MdIt.BlockH.C16
 open MdIt.Block
@@ -521,6 +514,9 @@ def kindsOf : Except Panic BState → Option (List Kind)
   | .ok s => some (s.children.map (·.kind))
   | .error _ => none
 
+-- (NOT reachable through the shipped `add` functions: `lheading::add` registers `.after_all()`, so heading
+-- always precedes lheading; this order needs raw `add_rule`.  On the real crate with lheading added first the
+-- coordinator measured `<h1>h</h1><p>===</p>` — i.e. the crate's compiled order still had heading first.)
 -- the "earlier member" alternative of `Honoured.first_yes` is REAL.  "a\n# h\n===" with lheading in front
 -- of heading: the paragraph ends at line 1 because the HEADING rule said yes in the sweep (lheading
 -- never says yes in look-ahead mode); at line 1 the real chain accepts with LHEADING ("# h" becomes the
@@ -633,5 +629,370 @@ example : sweepStopB (exX.test 6) (exS "a\n!x\nb") 1 = true ∧
   decide +kernel
 
 end examples
+
+end MdIt.BlockH.C16
+
+/-! ## APPENDED (second session): the lheading and reference callers, list item termination -/
+
+namespace MdIt.BlockH.C16
+open MdIt.Block
+open MdIt.Lines (LineOffset)
+
+theorem setextCheck_false (s : BState) (ind : Int) (n : Nat) : setextCheck false s ind n = .ok 0 := by
+  simp [setextCheck, pure, Except.pure]
+
+set_option maxHeartbeats 200000 in
+/-- a scan WITH the underline test that found no underline is the scan WITHOUT it: where the lheading
+    rule's scan stops by the sweep, the paragraph rule's scan stops too -/
+theorem lazyScan_false_of_true {test : Test} :
+    ∀ (fuel : Nat) (s : BState) (n l : Nat) (s' : BState),
+      lazyScan test true fuel s n = .ok (l, 0, s') → lazyScan test false fuel s n = .ok (l, 0, s') := by
+  intro fuel
+  induction fuel with
+  | zero => intro s n l s' h; simp [lazyScan] at h
+  | succ f ih =>
+    intro s n l s' h
+    simp only [lazyScan] at h ⊢
+    split at h
+    · rename_i hc
+      rw [if_pos hc]; exact h
+    · rename_i hc
+      rw [if_neg hc]
+      obtain ⟨ind, hind, h⟩ := bind_ok.mp h
+      simp only [hind, ok_bind]
+      split at h
+      · rename_i h4
+        rw [if_pos h4]; exact ih _ _ _ _ h
+      · rename_i h4
+        rw [if_neg h4]
+        obtain ⟨lv, hlv, h⟩ := bind_ok.mp h
+        simp only [setextCheck_false, ok_bind]
+        split at h
+        · rename_i hne
+          simp only [Except.ok.injEq, Prod.mk.injEq] at h
+          exact absurd h.2.1 hne
+        · rw [if_neg (by simp)]
+          obtain ⟨o, ho, h⟩ := bind_ok.mp h
+          simp only [ho, ok_bind]
+          split at h
+          · rename_i hneg
+            rw [if_pos hneg]; exact ih _ _ _ _ h
+          · rename_i hneg
+            rw [if_neg hneg]
+            obtain ⟨r, hr, h⟩ := bind_ok.mp h
+            simp only [hr, ok_bind]
+            split at h
+            · rename_i hb; rw [if_pos hb]; exact h
+            · rename_i hb; rw [if_neg hb]; exact ih _ _ _ _ h
+
+set_option maxHeartbeats 200000 in
+/-- where its scan stops by the sweep (no underline found), the lheading rule declines and leaves the
+    state alone -/
+theorem lheading_declines_at_sweep_stop {test : Test} {fuel : Nat} {s : BState} {l : Nat} {b : Bool} {s1 : BState}
+    (hs : lazyScan test true fuel s s.line = .ok (l, 0, s))
+    (h : lheadingRule test fuel s false = .ok (b, s1)) : b = false ∧ s1 = s := by
+  unfold lheadingRule at h
+  simp only [Bool.false_eq_true, if_false] at h
+  obtain ⟨ind, hind, h⟩ := bind_ok.mp h
+  split at h
+  · simp only [pure_ok, Prod.mk.injEq] at h
+    exact ⟨h.1.symm, h.2.symm⟩
+  · simp only [hs, ok_bind, if_true, pure_ok, Prod.mk.injEq] at h
+    exact ⟨h.1.symm, h.2.symm⟩
+
+set_option maxHeartbeats 200000 in
+/-- what the reference rule does when it accepts, under a quiet sweep: the state is the old one at
+    `start_line + lines + 1`, with another reference map -/
+theorem reference_ok {cfg : Cfg} {test : Test} (ht : TestQuiet test) {fuel : Nat} {s s' : BState}
+    (h : referenceRule cfg test fuel s false = .ok (true, s')) :
+    ∃ l lvl lines m, lazyScan test false fuel s s.line = .ok (l, lvl, s) ∧
+      s' = upd { s with line := s.line + lines + 1 } s.children s.tight m := by
+  unfold referenceRule at h
+  simp only [Bool.false_eq_true, if_false] at h
+  obtain ⟨ind, hind, h⟩ := bind_ok.mp h
+  split at h
+  · simp [pure_ok] at h
+  obtain ⟨line, hline, h⟩ := bind_ok.mp h
+  split at h
+  · simp [pure_ok] at h
+  split at h
+  · simp [pure_ok] at h
+  split at h
+  · simp [pure_ok] at h
+  obtain ⟨⟨l, lvl, s0⟩, hs, h⟩ := bind_ok.mp h
+  obtain ⟨hs0, _, _⟩ := lazyScan_stop ht false _ _ _ _ _ _ hs
+  dsimp only at h
+  obtain ⟨⟨str, mp0⟩, hg, h⟩ := bind_ok.mp h
+  dsimp only at h
+  obtain ⟨parsed, hpz, h⟩ := bind_ok.mp h
+  split at h
+  · simp [pure_ok] at h
+  split at h
+  · simp [pure_ok] at h
+  simp only [pure_ok, Prod.mk.injEq, true_and] at h
+  subst hs0
+  rw [← h]
+  exact ⟨l, lvl, _, _, hs, rfl⟩
+
+section callers
+variable {ι : Type} {E : Eng ι}
+
+set_option maxHeartbeats 200000 in
+/-- **C16, the reference rule as a caller of the sweep.**  A reference definition that ends exactly where
+    its scan stopped because the sweep said yes at `l`: this iteration ends with "go round again" at the
+    sweep's state with the new reference map, and the yes is `Honoured` there.  (A definition that uses
+    fewer lines than were scanned leaves the loop at an earlier line; the remaining lines are scanned
+    again by the next paragraph-like rule.) -/
+theorem reference_end_is_real_start (hE : E.OK) {f : Nat} (he : Bool) {s sE : BState} {pre post : List ι} {i : ι}
+    {s1 : BState}
+    (hR : RunsChain E.cfg.maxNesting s sE) (hc : E.chain = pre ++ i :: post)
+    (hd : Declined (E.rule f) pre sE false) (hi : E.base i = some .reference)
+    (hp : E.rule f i sE false = .ok (true, s1)) :
+    ∃ l lvl lines m, lazyScan (E.test f) false (f + 1) sE sE.line = .ok (l, lvl, sE) ∧
+      s1 = upd { sE with line := sE.line + lines + 1 } sE.children sE.tight m ∧
+      (SweepStop (E.test f) sE l → sE.line + lines + 1 = l →
+        tokStepG E.cfg.maxNesting E.chain (E.rule f) he s =
+          .ok (.next (he || sE.isEmpty (l - 1)) (upd { sE with line := l } sE.children (!he) m)) ∧
+        Honoured E f { sE with line := l } (upd { sE with line := l } sE.children (!he) m)) := by
+  have hq := hE.test_quiet f
+  have hp0 := hp
+  rw [E.rule_base f i _ hi] at hp
+  obtain ⟨l, lvl, lines, m, hs, hs1⟩ := reference_ok hq hp
+  refine ⟨l, lvl, lines, m, hs, hs1, ?_⟩
+  intro hstop hl
+  rw [hs1, hl] at hp0
+  have hch := chain_accepts_at (post := post) hd hp0
+  rw [← hc] at hch
+  refine ⟨step_after_accept hR hch (by omega) hstop.lt hstop.nonblank, ?_⟩
+  obtain ⟨t1, hyes⟩ := hstop.yes
+  exact honoured_of_sweep hE hyes hstop.lt hstop.nonblank hR.lvl hstop.ind _ _ _
+
+set_option maxHeartbeats 200000 in
+/-- **C16, the lheading rule as a caller of the sweep.**  The chain arrives at the lheading rule, its
+    scan (with the underline test) stops at `l` because the sweep said yes (no underline: level 0).
+    Then the lheading rule DECLINES and leaves the state alone; the scan of the paragraph rule (without
+    the underline test) stops at the same `l` for the same reason; and when the members between the two
+    decline, the paragraph rule takes the lines, the next iteration stands at `l` and the yes is
+    `Honoured` there — `paragraph_end_is_real_start` for the chain prefix `pre ++ i :: mid`. -/
+theorem lheading_end_is_real_start (hE : E.OK) {f : Nat} (he : Bool) {s sE : BState}
+    {pre mid post : List ι} {i ip : ι} {l : Nat} {b0 : Bool} {s0 : BState}
+    (hR : RunsChain E.cfg.maxNesting s sE) (hc : E.chain = pre ++ i :: (mid ++ ip :: post))
+    (hd : Declined (E.rule f) pre sE false) (hi : E.base i = some .lheading)
+    (hscan : lazyScan (E.test f) true (f + 1) sE sE.line = .ok (l, 0, sE))
+    (hstop : SweepStop (E.test f) sE l)
+    (hl : E.rule f i sE false = .ok (b0, s0)) :
+    b0 = false ∧ s0 = sE ∧ lazyScan (E.test f) false (f + 1) sE sE.line = .ok (l, 0, sE) ∧
+    (Declined (E.rule f) mid sE false → E.base ip = some .paragraph →
+      ∀ b s1, E.rule f ip sE false = .ok (b, s1) →
+        ∃ p : BNode, p.kind = .paragraph ∧
+          tokStepG E.cfg.maxNesting E.chain (E.rule f) he s =
+            .ok (.next (he || sE.isEmpty (l - 1)) (upd { sE with line := l } (sE.children ++ [p]) (!he) sE.refs)) ∧
+          Honoured E f { sE with line := l } (upd { sE with line := l } (sE.children ++ [p]) (!he) sE.refs)) := by
+  have hl0 := hl
+  rw [E.rule_base f i _ hi] at hl
+  obtain ⟨rfl, rfl⟩ := lheading_declines_at_sweep_stop hscan hl
+  have hpar := lazyScan_false_of_true _ _ _ _ _ hscan
+  refine ⟨rfl, rfl, hpar, ?_⟩
+  intro hmid hip b s1 hp
+  have hd' : Declined (E.rule f) (pre ++ i :: mid) s0 false := by
+    intro j hj
+    rcases List.mem_append.mp hj with h | h
+    · exact hd j h
+    · rcases List.mem_cons.mp h with rfl | h
+      · exact hl0
+      · exact hmid j h
+  have hc' : E.chain = (pre ++ i :: mid) ++ ip :: post := by rw [hc]; simp
+  obtain ⟨l', lvl, p, hs, hk, _, _, hmain⟩ := paragraph_end_is_real_start hE he hR hc' hd' hip hp
+  rw [hpar] at hs
+  simp only [Except.ok.injEq, Prod.mk.injEq] at hs
+  obtain ⟨rfl, _, _⟩ := hs
+  exact ⟨p, hk, hmain hstop⟩
+
+end callers
+end MdIt.BlockH.C16
+
+namespace MdIt.BlockH.C16
+open MdIt.Block
+open MdIt.Lines (LineOffset)
+
+/-! ## 4. list item termination -/
+
+/-- the item loop stopped at `sL` BECAUSE THE SWEEP ANSWERED YES THERE: `listContinue` reached its call
+    `test_rules_at_line` on `sL` itself (existing line, `0 ≤ line_indent < 4`) and the answer was `true` -/
+structure ListStop (test : Test) (sL : BState) : Prop where
+  lt : sL.line < sL.lineMax
+  nonblank : sL.isEmpty sL.line = false
+  ind : ∃ ind, sL.lineIndent sL.line = .ok ind ∧ 0 ≤ ind ∧ ind < 4
+  yes : ∃ t1, test sL = .ok (true, t1)
+
+/-- `s` with `tight` recomputed (what the loop does after every accepted block) -/
+def retight (s : BState) (b : Bool) : BState := { s with tight := b }
+
+section list
+variable {ι : Type} {E : Eng ι}
+
+set_option maxHeartbeats 400000 in
+/-- **C16, the list rule as a caller of the sweep (item termination).**  The loop runs the chain on `sE`,
+    the members in front of the list rule decline, the list rule accepts and returns `s1`.  Then `s1` is
+    the state `sL` at which the item loop stopped (node kind: the list's; the loop stopped at the end of
+    the frame or by `listContinue` ON `sL`) with level / node kind restored and the list pushed.  And IF
+    THE LIST STOPPED BECAUSE THE SWEEP SAID YES AT `sL` (`ListStop`) and the level is below the nesting
+    limit (always, for the shipped rules: `list_end_is_real_start_shipped`), the yes came from a first
+    member `j` — NOT the list rule: inside a list it never says yes —, and whenever this iteration
+    returns, the loop goes round again at `retight s1 (!he)`, AT THE LINE OF THE SWEEP, runs the real
+    chain there, and whenever that returns it ACCEPTED, with `j` or with a member in front of `j`. -/
+theorem list_end_is_real_start (hE : E.OK) (h2 : E.OK2) {f : Nat} (he : Bool) {s sE : BState}
+    {pre post : List ι} {i : ι} {s1 : BState}
+    (hR : RunsChain E.cfg.maxNesting s sE) (hc : E.chain = pre ++ i :: post)
+    (hd : Declined (E.rule f) pre sE false) (hi : E.base i = some .list)
+    (hp : E.rule f i sE false = .ok (true, s1)) :
+    ∃ ordered mc sL, isListKind sL.nodeKind = true ∧
+      ((¬ sL.line < sL.lineMax) ∨ listContinue (E.test f) ordered mc sL sL.line = .ok (none, sL)) ∧
+      (∃ c k lv, s1 = upd2 sL c sL.tight sL.refs k lv) ∧
+      (ListStop (E.test f) sL → s1.level < E.cfg.maxNesting →
+        ∃ pre0 j post0 t1, E.chain = pre0 ++ j :: post0 ∧ Declined (E.rule f) pre0 sL true ∧
+          E.rule f j sL true = .ok (true, t1) ∧ E.base j ≠ some .list ∧
+          ∀ r, tokStepG E.cfg.maxNesting E.chain (E.rule f) he s = .ok r →
+            r = .next (he || s1.isEmpty (s1.line - 1)) (retight s1 (!he)) ∧
+            (retight s1 (!he)).line = sL.line ∧
+            RunsChain E.cfg.maxNesting (retight s1 (!he)) (retight s1 (!he)) ∧
+            ∀ b' u', runChainG (E.rule f) E.chain (retight s1 (!he)) false = .ok (b', u') →
+              b' = true ∧ ∃ pre' j' post', E.chain = pre' ++ j' :: post' ∧
+                Declined (E.rule f) pre' (retight s1 (!he)) false ∧
+                E.rule f j' (retight s1 (!he)) false = .ok (true, u') ∧
+                ((pre' = pre0 ∧ j' = j) ∨ j' ∈ pre0)) := by
+  have hq := hE.test_quiet f
+  have hp0 := hp
+  rw [E.rule_base f i _ hi] at hp
+  simp only [runRule] at hp
+  obtain ⟨ordered, mc, sL, lvl, node, hk, hex, rfl⟩ := listRule_ok hq hp
+  refine ⟨ordered, mc, sL, hk, hex, ⟨_, _, _, by cases sL; rfl⟩, ?_⟩
+  intro hstop hlv
+  obtain ⟨t1, hyes⟩ := hstop.yes
+  obtain ⟨g, rfl⟩ : ∃ g, f = g + 1 := by
+    cases f with
+    | zero => rw [E.test_zero] at hyes; cases hyes
+    | succ g => exact ⟨g, rfl⟩
+  rw [E.test_succ] at hyes
+  have hyes' : runChainG (E.rule (g + 1)) E.chain sL true = .ok (true, t1) := by
+    rw [← runChainG_silent_ext (fun i s => hE.silent_indep g (g + 1) i s)]; exact hyes
+  obtain ⟨pre0, j, post0, hch0, hd0, hj⟩ := chain_true_split (hE.silent_no (g + 1)) E.chain hyes'
+  have hjl : E.base j ≠ some .list := by
+    intro h
+    have := list_in_list E (f := g + 1) h hk
+    rw [hj] at this; cases this
+  refine ⟨pre0, j, post0, t1, hch0, hd0, hj, hjl, ?_⟩
+  intro r hr
+  have hchain := chain_accepts_at (post := post) hd hp0
+  rw [← hc] at hchain
+  obtain ⟨_, hr'⟩ := step_after_accept' hR hchain hstop.nonblank hr
+  obtain ⟨ind, hind, h0, _⟩ := hstop.ind
+  have hnext := (next_iteration (chain := E.chain) (run := E.rule (g + 1))
+    (u := retight { sL with level := lvl, nodeKind := sE.nodeKind, children := sE.children ++ [node] } (!he))
+    (mn := E.cfg.maxNesting) hstop.lt hstop.nonblank hlv (ind := ind) hind).1 h0
+  refine ⟨hr', rfl, hnext, ?_⟩
+  intro b' u' hreal
+  have hu : retight { sL with level := lvl, nodeKind := sE.nodeKind, children := sE.children ++ [node] } (!he)
+      = upd2 sL (sE.children ++ [node]) (!he) sL.refs sE.nodeKind lvl := by cases sL; rfl
+  have hju : E.rule (g + 1) j (upd2 sL (sE.children ++ [node]) (!he) sL.refs sE.nodeKind lvl) true
+      = .ok (true, upd2 t1 (sE.children ++ [node]) (!he) sL.refs sE.nodeKind lvl) := by
+    rw [h2 _ _ _ _ _ _ _ _ hjl, hj]; rfl
+  rw [hch0, hu] at hreal
+  obtain ⟨hb, pre', j', post', he', hd', hj', _, hor⟩ :=
+    chain_agree (hE.false_same (g + 1)) (hE.silent_real (g + 1)) pre0 j post0 hju hreal
+  rw [hu]
+  exact ⟨hb, pre', j', post', by rw [hch0, he'], hd', hj', hor⟩
+
+end list
+
+/-- for the shipped rules (any chain over the ten) the level condition of `list_end_is_real_start` always
+    holds: the list rule hands back the level it found (`ruleAtH_progress`) -/
+theorem list_level_shipped {cfg : Cfg} {chain : List RuleIdH} {f : Nat} {i : RuleIdH} {s sE s1 : BState}
+    (hR : RunsChain cfg.maxNesting s sE) (hp : (engH cfg chain).rule f i sE false = .ok (true, s1)) :
+    s1.level < cfg.maxNesting := by
+  have h := (ruleAtH_progress (cfg := cfg) (chain := chain) (fuel := f) (r := i) hp hR.ltE hR.ind).2.2
+  rw [h.level]; exact hR.lvl
+
+/-- **list item termination, shipped rules**: `list_end_is_real_start` for every chain over the ten shipped
+    rules, with no side condition left but the stop reason -/
+theorem list_end_is_real_start_shipped (cfg : Cfg) (chain : List RuleIdH) {f : Nat} (he : Bool) {s sE : BState}
+    {pre post : List RuleIdH} {s1 : BState}
+    (hR : RunsChain cfg.maxNesting s sE) (hc : chain = pre ++ .base .list :: post)
+    (hd : Declined ((engH cfg chain).rule f) pre sE false)
+    (hp : (engH cfg chain).rule f (.base .list) sE false = .ok (true, s1)) :
+    ∃ ordered mc sL, isListKind sL.nodeKind = true ∧
+      ((¬ sL.line < sL.lineMax) ∨ listContinue ((engH cfg chain).test f) ordered mc sL sL.line = .ok (none, sL)) ∧
+      (ListStop ((engH cfg chain).test f) sL →
+        ∀ r, tokStepG cfg.maxNesting chain ((engH cfg chain).rule f) he s = .ok r →
+          r = .next (he || s1.isEmpty (s1.line - 1)) (retight s1 (!he)) ∧
+          (retight s1 (!he)).line = sL.line ∧
+          RunsChain cfg.maxNesting (retight s1 (!he)) (retight s1 (!he)) ∧
+          ∀ b' u', runChainG ((engH cfg chain).rule f) chain (retight s1 (!he)) false = .ok (b', u') → b' = true) := by
+  obtain ⟨ordered, mc, sL, hk, hex, _, hmain⟩ :=
+    list_end_is_real_start (E := engH cfg chain) (engH_ok cfg chain) (engH_ok2 cfg chain) he hR hc hd rfl hp
+  refine ⟨ordered, mc, sL, hk, hex, ?_⟩
+  intro hstop r hr
+  obtain ⟨_, _, _, _, _, _, _, _, hall⟩ := hmain hstop (list_level_shipped hR hp)
+  obtain ⟨h1, h2, h3, h4⟩ := hall r hr
+  exact ⟨h1, h2, h3, fun b' u' h => (h4 b' u' h).1⟩
+
+set_option maxHeartbeats 400000 in
+/-- **C16, a custom rule directly behind a list (the scenario of 07357ef) is invoked for real.**  The
+    chain: the ten shipped rules and the custom rule `X` (`CustomOK X`, and its look-ahead reads neither
+    node kind nor level: `hX2`).  The list rule accepted and its item loop stopped at `sL` because the
+    sweep said yes, AND THAT YES CAME FROM `X` (`pre0` declined; `X` may have advanced `line` — style A:
+    `listContinue` put it back).  Then, whenever this iteration returns, the loop stands next AT THE LINE
+    `X` CLAIMED and runs the real chain there; and whenever that returns it accepted — `X` WAS RUN IN REAL
+    MODE and accepted, or a member in front of `X` took the line. -/
+theorem custom_rule_after_list {X : BState → Bool → Res} (hX : CustomOK X)
+    (hX2 : ∀ s c b m k lv, X (upd2 s c b m k lv) true = Except.map (mp2 c b m k lv) (X s true))
+    (cfg : Cfg) (chain : List RuleIdX) {f : Nat} (he : Bool) {s sE : BState} {pre post : List RuleIdX}
+    {s1 : BState}
+    (hR : RunsChain cfg.maxNesting s sE) (hc : chain = pre ++ .std (.base .list) :: post)
+    (hd : Declined ((engX X cfg chain).rule f) pre sE false)
+    (hp : (engX X cfg chain).rule f (.std (.base .list)) sE false = .ok (true, s1))
+    (hlv : s1.level < cfg.maxNesting) :
+    ∃ ordered mc sL,
+      ((¬ sL.line < sL.lineMax) ∨ listContinue ((engX X cfg chain).test f) ordered mc sL sL.line = .ok (none, sL)) ∧
+      ∀ pre0 post0 t1, ListStop ((engX X cfg chain).test f) sL → chain = pre0 ++ .custom :: post0 →
+        Declined ((engX X cfg chain).rule f) pre0 sL true → X sL true = .ok (true, t1) →
+        ∀ r, tokStepG cfg.maxNesting chain ((engX X cfg chain).rule f) he s = .ok r →
+          r = .next (he || s1.isEmpty (s1.line - 1)) (retight s1 (!he)) ∧
+          (retight s1 (!he)).line = sL.line ∧
+          RunsChain cfg.maxNesting (retight s1 (!he)) (retight s1 (!he)) ∧
+          ∀ b' u', runChainG ((engX X cfg chain).rule f) chain (retight s1 (!he)) false = .ok (b', u') →
+            b' = true ∧
+            (X (retight s1 (!he)) false = .ok (true, u') ∨
+             ∃ j ∈ pre0, (engX X cfg chain).rule f j (retight s1 (!he)) false = .ok (true, u')) := by
+  obtain ⟨ordered, mc, sL, _, hex, _, hmain⟩ :=
+    list_end_is_real_start (E := engX X cfg chain) (engX_ok hX cfg chain) (engX_ok2 hX2 cfg chain) he hR hc hd rfl hp
+  refine ⟨ordered, mc, sL, hex, ?_⟩
+  intro pre0 post0 t1 hstop hc0 hd0 hx r hr
+  obtain ⟨pre1, j1, post1, t1', hc1, hd1, hj1, _, hall⟩ := hmain hstop hlv
+  have hx' : (engX X cfg chain).rule f .custom sL true = .ok (true, t1) := hx
+  obtain ⟨rfl, rfl⟩ := first_yes_unique pre0 pre1 (hc0.symm.trans hc1) hd0 hd1 hx' hj1
+  obtain ⟨h1, h2, h3, h4⟩ := hall r hr
+  refine ⟨h1, h2, h3, ?_⟩
+  intro b' u' hreal
+  obtain ⟨hb, pre', j', post', _, _, hj', hor⟩ := h4 b' u' hreal
+  refine ⟨hb, ?_⟩
+  rcases hor with ⟨_, rfl⟩ | hm
+  · exact .inl hj'
+  · exact .inr ⟨j', hm, hj'⟩
+
+/-- the concrete style-A rule `bangRule` meets the extra hypothesis of `custom_rule_after_list` -/
+theorem bangRule_reads2 (s c b m k lv) :
+    bangRule (upd2 s c b m k lv) true = Except.map (mp2 c b m k lv) (bangRule s true) := by
+  unfold bangRule
+  simp only [upd2_getLine, upd2_line]
+  repeat' (first | rfl | split)
+
+-- "- a\n!x" (`!`-rule first, then the ten shipped rules): inside the list the termination test asks the
+-- sweep at line 1, the `!`-rule says yes (and moves `line` to 2), `listContinue` puts `line` back, the
+-- list ends, the top loop stands at line 1 and the `!`-rule is run for real
+example :
+    (frameTrace exX 6 7 false (exS "- a\n!x")).map (fun x => x.2.2.line) = [0, 1, 2] ∧
+    kindsOf (exX.tok 7 (exS "- a\n!x")) = some [.bulletList '-', .hr '!' 1] := by
+  decide +kernel
 
 end MdIt.BlockH.C16
